@@ -515,8 +515,9 @@ def run(rep: Report, tier: str):
         "Structural necessary conditions for byte-exact parse/re-serialise: serialisers are plain concatenations of the "
         "retained opcode bytes; every parsed opcode's bytes are sliced from the input; a save/restore pairing rule on the "
         "stream position inside the genops loop over a CFG with exceptional edges; boundedness of reads; end positioning; "
-        "the stacking loop. Equality of dumps() with the input prefix for every encoding/length is value-level (position "
-        "arithmetic) and is not decided."
+        "the stacking loop. C06.round-trip interprets Pickled.load / dumps / StackedPickle.load over real byte strings: every "
+        "protocol and argument reader, from bytes, BytesIO and an opened file; streams of four kinds (BytesIO, opened file, "
+        "gzip member, zip member) entered at a non-zero offset with two consecutive loads and a trailer; concatenations."
     )
     rep.rule("C06.concat", "serialisers emit the concatenation of <opcode>.data; data prefers retained bytes", 6)
     rep.rule("C06.retained", "parsed opcodes get their bytes from the stream; positions tested with `is None`", 3)
@@ -526,12 +527,25 @@ def run(rep: Report, tier: str):
     rep.rule("C06.stack-loop", "one normalisation, one stream object, every non-empty parse kept, ends on empty parse", 4)
     rep.assume("pickletools.genops yields (info, arg, pos) in stream order and only advances the stream (trusted tokeniser)")
     rep.rule("C06.round-trip", "Pickled.load/dumps and StackedPickle.load, interpreted over a corpus of real pickle byte strings, are byte-exact and partition stacks", 1)
-    check_concat(repo, rep)
-    check_load(repo, rep)
-    check_round_trip(repo, rep, tier)
-    check_ctor_total(repo, rep)
-    check_make_stream(repo, rep)
-    check_stack_loop(repo, rep)
+    # The interpretation decides byte-exactness, end position and partition on what load/dumps *do*.  When it completes, the
+    # rules that match the shape of load()'s body are pointers only (they also fire on rewrites that keep the behaviour, e.g.
+    # `Opcode(info=..., argument=..., position=...)` where data is None anyway); when it cannot be carried out they decide.
+    # C06.bounded-read stays a verdict either way: non-seekable streams are not among the interpreted worlds.
+    from ..report import Demoter
+
+    undecided = None
+    try:
+        check_round_trip(repo, rep, tier)
+    except AnalysisError as e:
+        undecided = e
+    srep = rep if undecided is not None else Demoter(rep, {"C06.concat", "C06.retained", "C06.seek-restore", "C06.end-position", "C06.stack-loop"}, "C06.round-trip")
+    check_concat(repo, srep)
+    check_load(repo, srep)
+    check_ctor_total(repo, srep)
+    check_make_stream(repo, srep)
+    check_stack_loop(repo, srep)
+    if undecided is not None:
+        raise undecided
 
 
 # ------------------------------------------------------------------------------------------------------------------------
@@ -554,6 +568,8 @@ def _corpus(tier: str):
         ("small-ints", [0, 1, -1, 255, 256, 65535, 65536, 2 ** 31 - 1, 2 ** 31, -(2 ** 31), -(2 ** 31) - 1]),
         ("big-ints", [big, -big, 2 ** 63, -(2 ** 63), 2 ** 2040]),
         ("floats", [0.0, -0.0, 1.5, float("inf"), 1e300]),
+        ("nan", [float("nan"), -float("nan")]),
+        ("lone-surrogate text", ["\ud800", "a\udfffb"]),
         ("singletons", [None, True, False]),
         ("text", ["", "ascii", "h\xe9llo", "€", "\U0001f600", "x" * 255, "x" * 256, "\xe9" * 128, "line\nbreak", "back\\slash", "quote'\""]),
         ("bytes", [b"", b"abc", b"\x00\xff", b"x" * 255, b"x" * 256]),
@@ -597,6 +613,10 @@ def _corpus(tier: str):
         ("torch-like state dict (BINPERSID storage, _rebuild_tensor_v2, OrderedDict + BUILD)", b"\x80\x02ccollections\nOrderedDict\n)R(X\x01\x00\x00\x00wctorch._utils\n_rebuild_tensor_v2\n((X\x07\x00\x00\x00storagectorch\nFloatStorage\nX\x01\x00\x00\x000X\x03\x00\x00\x00cpuK\x04tQK\x00K\x02K\x02\x86K\x02K\x01\x86\x89ccollections\nOrderedDict\n)RtRu}X\x09\x00\x00\x00_metadataccollections\nOrderedDict\n)Rsb."),
         ("EXT1", b"\x82\x01."), ("BYTEARRAY8", b"\x80\x05\x96\x02\x00\x00\x00\x00\x00\x00\x00hi."), ("NEXT_BUFFER", b"\x80\x05\x97."), ("FLOAT text", b"F2.5\n."),
     ]
+    # header-less pickles whose very first opcode takes no argument (offset 0 is a position like any other)
+    hand += [(f"header-less {nm} at offset 0", code + b".") for nm, code in (("NEWTRUE", b"\x88"), ("NEWFALSE", b"\x89"), ("EMPTY_SET", b"\x8f"), ("EMPTY_TUPLE", b")"), ("EMPTY_LIST", b"]"), ("EMPTY_DICT", b"}"), ("NONE", b"N"))]
+    # an argument-carrying opcode whose encoding exceeds 1 MiB
+    hand.append(("BINBYTES of 1.2 MiB (protocol 3)", pickle.dumps(b"\x07" * (1200 * 1024), 3)))
     out += hand
     return out
 
@@ -622,6 +642,42 @@ def _fresh_objeval(repo: Repo):
 _RT_REPO = None
 
 
+STREAM_KINDS = ("io.BytesIO", "io.BufferedReader (an opened file)", "gzip.GzipFile (a .pkl.gz, seekable)", "zipfile.ZipExtFile (a member of a zip archive, seekable)")
+
+
+class _Pipe(__import__("io").RawIOBase):
+    """A readable stream that cannot seek or tell (a pipe): data made up by the world, nothing of the repository."""
+
+    def __init__(self, data: bytes):
+        self._b = __import__("io").BytesIO(data)
+
+    def readable(self):
+        return True
+
+    def seekable(self):
+        return False
+
+    def readinto(self, b):
+        return self._b.readinto(b)
+
+
+def _make_stream(kind: str, whole: bytes):
+    import gzip
+    import io
+    import zipfile
+
+    if kind.startswith("io.BytesIO"):
+        return io.BytesIO(whole)
+    if kind.startswith("io.BufferedReader"):
+        return io.BufferedReader(io.BytesIO(whole))
+    if kind.startswith("gzip"):
+        return gzip.GzipFile(fileobj=io.BytesIO(gzip.compress(whole)), mode="rb")
+    buf = io.BytesIO()
+    with zipfile.ZipFile(buf, "w", zipfile.ZIP_DEFLATED) as z:
+        z.writestr("archive/data.pkl", whole)
+    return zipfile.ZipFile(io.BytesIO(buf.getvalue())).open("archive/data.pkl")
+
+
 def _rt_chunk(items):
     import io
     import pickletools
@@ -641,13 +697,37 @@ def _rt_chunk(items):
                 stream = io.BytesIO(data + b"TRAILING")
                 P = oe.ref(pk).sa_attr("load")(stream)
                 end = stream.tell()
-                got = P.sa_attr("dumps")()
+                try:
+                    got = P.sa_attr("dumps")()
+                except PyRaise as pe:
+                    out.append(("raises", "dumps:" + pe.name))  # parsed, but the untouched result does not re-serialise
+                    continue
                 again = oe.ref(pk).sa_attr("load")(data).sa_attr("dumps")()  # from a byte string
                 # a seekable stream that is not a BytesIO (what an opened file is): same bytes out, stream left at the end
-                fstream = io.BufferedReader(io.BytesIO(data + b"TRAILING"))
+                fstream = io.BufferedReader(io.BytesIO(data + b"\nTRAILING"))  # what follows may start with any byte: here a newline
                 fgot = oe.ref(pk).sa_attr("load")(fstream).sa_attr("dumps")()
                 fend = fstream.tell()
                 out.append(("ok", got, end, again, fgot, fend))
+            elif kind == "position":
+                # a stream entered at a non-zero offset holding two pickles back to back and a trailer; two consecutive loads
+                skind, a, b = parts
+                whole = b"HEADER" + a + b + b"TRAILING"
+                stream = _make_stream(skind, whole)
+                stream.read(6)
+                P1 = oe.ref(pk).sa_attr("load")(stream)
+                e1 = stream.tell()
+                g1 = P1.sa_attr("dumps")()  # re-serialising between two loads moves nothing
+                P2 = oe.ref(pk).sa_attr("load")(stream)
+                e2 = stream.tell()
+                rest = stream.read()
+                g1b = P1.sa_attr("dumps")()
+                out.append(("ok", g1 if g1 == g1b else g1b, e1, P2.sa_attr("dumps")(), e2, rest))
+            elif kind == "pipe-stack":
+                whole = b"".join(parts)
+                stream = io.BufferedReader(_Pipe(whole))  # not seekable: a pipe, a socket
+                S = oe.ref(sp).sa_attr("load")(stream)
+                elems = [e.sa_attr("dumps")() for e in list(S.sa_attr("pickled"))]
+                out.append(("ok", elems, 0, elems))
             else:
                 whole = b"".join(parts)
                 stream = io.BytesIO(whole)
@@ -733,6 +813,8 @@ def check_round_trip(repo: Repo, rep: Report, tier: str):
             if o[0] == "raises":
                 if o[1] == "NotImplementedError":
                     n_refused += 1  # an opcode fickling does not implement: refused as a whole (C03.refuse), nothing re-serialised
+                elif o[1].startswith("dumps:"):
+                    note(f"untouched-parse-does-not-serialise:{o[1][6:]}", f"Pickled.load accepts {label} ({data[:24]!r}...) but dumps() of the untouched result raises {o[1][6:]}")
                 else:
                     note(f"valid-pickle-refused:{o[1]}", f"Pickled.load raises {o[1]} on {label} ({data[:24]!r}...), a stream CPython's own reader accepts and every opcode of which fickling implements")
                 continue
@@ -773,6 +855,40 @@ def check_round_trip(repo: Repo, rep: Report, tier: str):
                 note("stack-end-position", f"after StackedPickle.load the stream is at offset {end} of {sum(len(p_) for p_ in ps)} ({label})")
             else:
                 n_stacks += 1
+    # streams of every kind entered at a non-zero offset, two consecutive loads
+    sel = parsed[:: max(1, len(parsed) // (12 if tier == "thorough" else 5))]
+    huge = [x for x in parsed if x[0].startswith("BINBYTES of 1.2 MiB")]
+    if huge and huge[0] not in sel:
+        sel = sel + huge
+    pitems = [("position", f"{sk}: HEADER + {a[0]} + {b[0]} + TRAILING", [sk, a[1], b[1]]) for sk in STREAM_KINDS for a, b in zip(sel, sel[1:] + sel[:1])]
+    pitems += [("pipe-stack", "a non-seekable stream: " + " + ".join(l for l, _ in st)[:140], [d for _, d in st]) for st in stacks[:: max(1, len(stacks) // 6)]]
+    pchunks = [pitems[i::jobs] for i in range(jobs)]
+    pparts = dec(cached("c06rt-positions-" + ckey, lambda: enc(run_chunks(pchunks))))
+    n_pos = 0
+    for chunk, outs in zip(pchunks, pparts):
+        for (kind, label, ps), o in zip(chunk, outs):
+            sk = ps[0].split(" ")[0] if kind == "position" else "non-seekable"
+            if o[0] == "unsupported":
+                raise AnalysisError(f"C06.round-trip: cannot interpret two consecutive loads over {label}: {o[1]}")
+            if o[0] == "raises":
+                note(f"positioned-stream-refused:{sk}:{o[1]}" if kind == "position" else f"stack-refused:non-seekable:{o[1]}", f"{'Pickled.load' if kind == 'position' else 'StackedPickle.load'} raises {o[1]} on {label}")
+                continue
+            if kind == "pipe-stack":
+                if o[1] != ps:
+                    note("stack-partition:non-seekable", f"StackedPickle.load over {label} ({len(ps)} pickles) yields {len(o[1])} element(s) that are not the members")
+                else:
+                    n_pos += 1
+                continue
+            _, g1, e1, g2, e2, rest = o
+            a, b = ps[1], ps[2]
+            if g1 != a or e1 != 6 + len(a):
+                note(f"positioned-stream:{sk}:first-load", f"{label}: the first load re-serialises {'differently' if g1 != a else 'correctly'} and leaves the stream at offset {e1}; the pickle ends at {6 + len(a)}")
+            elif g2 != b or e2 != 6 + len(a) + len(b):
+                note(f"positioned-stream:{sk}:second-load", f"{label}: the second load {'does not return the second pickle' if g2 != b else 'returns the second pickle'} and leaves the stream at offset {e2}; the pickle ends at {6 + len(a) + len(b)}")
+            elif rest != b"TRAILING":
+                note(f"positioned-stream:{sk}:trailer", f"{label}: after both loads {rest[:20]!r} is left to read instead of the trailer")
+            else:
+                n_pos += 1
     for key, (c, m) in sorted(bad.items()):
         rep.bad(rule, pk.qualname + ".load", key, f"{m} [{c} input(s)]", pk.module.relpath, pk.method("load").line)
-    rep.ok(rule, pk.qualname + ".load", f"{len(corpus)} byte strings (CPython's pickler output for sample values at protocols 0-5, and hand-assembled non-canonical spellings of every argument reader): {n_ok} re-serialise byte-exactly from a stream and from bytes with the stream left at the end of the pickle, {n_refused} contain an unimplemented opcode and are refused whole; {n_stacks} concatenations partition into exactly their members", "", nontrivial=True)
+    rep.ok(rule, pk.qualname + ".load", f"{n_pos} positioned streams (four stream kinds entered after a header, two consecutive loads, trailer intact); {len(corpus)} byte strings (CPython's pickler output for sample values at protocols 0-5, and hand-assembled non-canonical spellings of every argument reader): {n_ok} re-serialise byte-exactly from a stream and from bytes with the stream left at the end of the pickle, {n_refused} contain an unimplemented opcode and are refused whole; {n_stacks} concatenations partition into exactly their members", "", nontrivial=True)
